@@ -42,8 +42,8 @@ def expectedSites : List (String × String × String × Bool × String) := [
   ("src/executor/miner_node_executor.go", "minerNodeExecutor.Execute", "SubBalance", false, "nodeTx (debits 10 RPG and credits nobody: known finding burn-operator-node-fee)"),
   ("src/service/game.go", "transferBalance", "AddBalance", false, "transferBalance"),
   ("src/service/game.go", "transferBalance", "SubBalance", true, "transferBalance"),
-  ("src/service/miner_manager.go", "MinerManager.AddMiner", "SubBalance", false, "lockStake"),
-  ("src/service/miner_manager.go", "MinerManager.AddStake", "SubBalance", false, "lockStake"),
+  ("src/service/miner_manager.go", "MinerManager.AddMiner", "SubBalance", false, "minerApply / minerAdd / opStake"),
+  ("src/service/miner_manager.go", "MinerManager.AddStake", "SubBalance", false, "minerApply / minerAdd / opStake"),
   ("src/service/refund_manager.go", "RefundManager.CheckAndMove", "AddBalance", false, "refundMove"),
   ("src/service/transaction_pool.go", "TxPool.ProcessFee", "AddBalance", false, "processFee"),
   ("src/service/transaction_pool.go", "TxPool.ProcessFee", "SubBalance", false, "processFee"),
@@ -71,20 +71,27 @@ def expectedSites : List (String × String × String × Bool × String) := [
     (e.g. `AccountDB.Suicide` has no return between its nil test and zeroing the balance) -/
 def expectedOrder : List (String × List String) := [
   ("src/core/vmexecutor.go:VMExecutor.Execute", ["BeforeExecute", "Snapshot", "Execute", "RevertToSnapshot", "deductGasFee", "return"]),
+  ("src/core/vmexecutor.go:VMExecutor.after", ["return", "Add", "CalculateReward", "Add", "CheckAndMove", "CheckAndMove"]),
   ("src/core/vmexecutor.go:deductGasFee", ["return", "GetBalance", "Cmp", "SubBalance", "AddBalance"]),
   ("src/executor/base_executor.go:baseFeeExecutor.BeforeExecute", ["validateNonce", "return", "ProcessFee", "return", "return"]),
   ("src/executor/contract_executor.go:contractExecutor.BeforeExecute", ["validateNonce", "return", "ProcessFee", "return", "decodeContractData", "return", "preCheckContractFee", "return", "return"]),
   ("src/executor/contract_executor.go:contractExecutor.Execute", ["return", "IntrinsicGas", "return", "return", "Create", "Call", "GetBalance", "Cmp", "SubBalance", "AddBalance", "return", "return"]),
-  ("src/executor/contract_executor.go:preCheckContractFee", ["GetBalance", "Cmp", "return", "return"]),
+  ("src/executor/contract_executor.go:preCheckContractFee", ["GetBalance", "Cmp", "Add", "return", "return"]),
   ("src/executor/jsonrpc_executor.go:jsonrpcExecutor.BeforeExecute", ["validateNonce", "return", "ProcessFee", "return", "decodeContractData", "return", "preCheckContractFee", "return", "return"]),
+  ("src/executor/miner_executor.go:minerAddExecutor.Execute", ["return", "return", "return", "AddStake"]),
+  ("src/executor/miner_executor.go:minerApplyExecutor.Execute", ["return", "return", "return", "AddMiner", "return"]),
+  ("src/executor/miner_executor.go:minerRefundExecutor.Execute", ["return", "return", "ParseUint", "return", "GetRefundStake", "return", "AddRefundInfo", "AddRefundInfo", "return"]),
+  ("src/executor/miner_node_executor.go:minerNodeExecutor.Execute", ["GetBalance", "Cmp", "return", "SubBalance", "GetMinerIdByAccount", "return", "GetMiner", "return", "return", "UpdateMiner", "return"]),
   ("src/service/game.go:ChangeAssets", ["transferBalance", "return", "GetBalance", "return"]),
   ("src/service/game.go:transferBalance", ["StrToBigInt", "return", "Sign", "return", "GetBalance", "Cmp", "return", "AddBalance", "SubBalance", "return"]),
-  ("src/service/miner_manager.go:MinerManager.AddMiner", ["return", "return", "return", "GetBalance", "Cmp", "return", "return", "return", "SubBalance", "return"]),
-  ("src/service/miner_manager.go:MinerManager.AddStake", ["return", "GetBalance", "Cmp", "return", "return", "return", "SubBalance", "return"]),
+  ("src/service/miner_manager.go:MinerManager.AddMiner", ["return", "return", "return", "GetBalance", "Cmp", "return", "GetMiner", "return", "GetMinerIdByAccount", "return", "SubBalance", "UpdateMiner", "return"]),
+  ("src/service/miner_manager.go:MinerManager.AddStake", ["return", "GetBalance", "Cmp", "return", "GetMinerById", "GetMinerById", "return", "return", "SubBalance", "UpdateMiner", "return"]),
+  ("src/service/miner_manager.go:MinerManager.RemoveMiner", ["IsContract", "SetData", "SetData", "SetData", "SetData", "return", "SetData", "SetData"]),
   ("src/service/refund_manager.go:RefundManager.CheckAndMove", ["return", "return", "AddBalance"]),
+  ("src/service/refund_manager.go:RefundManager.GetRefundStake", ["GetMiner", "return", "return", "return", "RemoveMiner", "UpdateMiner", "return"]),
   ("src/service/transaction_pool.go:TxPool.ProcessFee", ["GetBalance", "Cmp", "return", "SubBalance", "AddBalance", "return"]),
   ("src/storage/account/accountdb.go:AccountDB.Suicide", ["return", "GetBalance", "setBalance", "return"]),
-  ("src/storage/account/accountdb_tuntun.go:AccountDB.AddFT", ["return", "SetData", "setData", "return", "return", "AddFT"]),
+  ("src/storage/account/accountdb_tuntun.go:AccountDB.AddFT", ["return", "Add", "SetData", "setData", "return", "return", "AddFT"]),
   ("src/storage/account/accountdb_tuntun.go:AccountDB.SubFT", ["return", "Cmp", "return", "SetData", "setData", "return", "return", "SubFT"]),
   ("src/vm/evm.go:EVM.AuthCall", ["return", "Sign", "CanTransfer", "return", "Snapshot", "Sign", "return", "Transfer", "RevertToSnapshot", "return"]),
   ("src/vm/evm.go:EVM.Call", ["return", "Sign", "CanTransfer", "return", "Snapshot", "Sign", "return", "Transfer", "RevertToSnapshot", "return"]),
@@ -94,7 +101,10 @@ def expectedOrder : List (String × List String) := [
   ("src/vm/evm.go:EVM.create", ["return", "return", "CanTransfer", "return", "return", "Snapshot", "Transfer", "RevertToSnapshot", "return"]),
   ("src/vm/init.go:CanTransfer", ["Sign", "return", "return", "Cmp", "GetBalance"]),
   ("src/vm/init.go:Transfer", ["SubBalance", "AddBalance"]),
-  ("src/vm/instructions.go:opSuicide", ["GetBalance", "AddBalance", "Suicide", "return"])
+  ("src/vm/instructions.go:opStake", ["ParseUint", "GetMinerIdByAccount", "AddStake", "return"]),
+  ("src/vm/instructions.go:opSuicide", ["GetBalance", "AddBalance", "Suicide", "return"]),
+  ("src/vm/instructions.go:opUnStake", ["GetMinerIdByAccount", "ParseUint", "GetRefundStake", "Cmp", "AddRefundInfo", "AddRefundInfo", "Add", "return"]),
+  ("src/vm/instructions.go:opUnStakeAll", ["GetMinerIdByAccount", "return", "GetRefundStake", "return", "AddRefundInfo", "Add", "return"])
 ]
 
 def hexOf (n : Nat) : String := String.ofList (Nat.toDigits 16 n)
@@ -134,6 +144,6 @@ theorem order_as_transcribed : LedgerFacts.order = expectedOrder := by decide
 theorem constants_match : LedgerFacts.consts = expectedConsts := by decide
 
 /-- The transaction fee of the model is `StrToBigInt("0.001")`. -/
-theorem fee_is_delta026 : strToBigInt "0.001" = .val txFee := by decide
+theorem fee_is_delta026 : strToBigInt "0.001" = .val txFee := by decide +kernel
 
 end Rangers.Props.C06Sites
